@@ -275,7 +275,15 @@ impl Property for C20 {
                     // (a scale database holds small files: hundreds of directories times
                     // files of hundreds of KB would be tens of MB per run)
                     contents: (0..NFILES)
-                        .map(|f| if many { format!("{} of a package among many\n", FILE_NAMES[f]) } else { gen_content(rng, f) })
+                        .map(|f| {
+                            if !many {
+                                gen_content(rng, f)
+                            } else if f == F_SIZE_ALL || f == F_SIZE_PKG {
+                                "4096\n".to_string()
+                            } else {
+                                format!("{} of a package among many\n", FILE_NAMES[f])
+                            }
+                        })
                         .collect(),
                     extras: if rng.chance(1, 6) { rng.urange(1, 40) } else { 0 },
                 }
